@@ -13,6 +13,7 @@ and the pinning of memo keys against `id` reuse (object identity is abstract in 
 -/
 import FiddleModel.Lemmas.BuildMirror
 import FiddleModel.Lemmas.Basic
+import FiddleModel.Lemmas.BuildTotal
 
 namespace Fiddle
 
@@ -99,6 +100,14 @@ theorem C02_root_result (h : Heap) (fails : List Nat) (i : Nat) (r : BVal) (st :
     (hb : build h fails (.ref i) = .ok (r, st)) : r = resultOf st.memo (.ref i) := by
   have := (buildVal_step h fails _ (.ref i) [] {} r st hb (BuildSt.inv_init h)).2 i rfl
   simp [resultOf, this]
+
+/-- The theorems above are about builds that return; this one says when they do: on every
+    acyclic configuration (children before parents in the heap) all of whose calls bind and none
+    of whose callables raises, `fdl.build` returns — no spurious cycle error, whatever the
+    sharing, depth or size. (`build` passes `|heap| + 1` as fuel: it suffices.) -/
+theorem C02_build_returns (h : Heap) (wf : h.WellFormed) (hb : h.Binds) (root : GVal)
+    (hr : ∀ i, root = .ref i → i < h.length) : ∃ r st, build h [] root = .ok (r, st) :=
+  build_total h wf hb root hr
 
 /-! ## Non-vacuity: a Buildable referenced twice through a list is invoked once and the list
     holds the same built object twice. -/
